@@ -179,6 +179,33 @@ func rpRunOp(c *rux.Context, op Sx) {
 	}
 }
 
+// rpStdHandler: the same handler written as a plain net/http handler and registered through one of rux's adaptors
+// (it reaches its Context through the adaptor's caller; rp cases run one request at a time)
+func rpStdHandler(ops []Sx) rux.HandlerFunc {
+	var cur *rux.Context
+	body := func(http.ResponseWriter, *http.Request) {
+		for _, op := range ops {
+			rpRunOp(cur, op)
+		}
+	}
+	var inner rux.HandlerFunc
+	switch len(ops) % 3 {
+	case 0:
+		inner = rux.WrapHTTPHandlerFunc(body)
+	case 1:
+		inner = rux.WrapHTTPHandler(http.HandlerFunc(body))
+	default:
+		inner = rux.HTTPHandlerFunc(body)
+	}
+	return func(c *rux.Context) {
+		if rec := rpRec(c); rec.ctxPtr == "" {
+			rec.ctxPtr = fmt.Sprintf("%p", c)
+		}
+		cur = c
+		inner(c)
+	}
+}
+
 func rpHandler(ops []Sx) rux.HandlerFunc {
 	return func(c *rux.Context) {
 		if rec := rpRec(c); rec.ctxPtr == "" {
@@ -406,7 +433,11 @@ func rpExec(c Sx) (out Sx) {
 			env.r.OnError = rpHandler(onError)
 		}
 		for _, h := range xs[3].Lst() {
-			env.hs[h.List[0].Int()] = rpHandler(h.List[1].Lst())
+			if len(h.List) > 2 && h.List[2].Atom == "std" {
+				env.hs[h.List[0].Int()] = rpStdHandler(h.List[1].Lst())
+			} else {
+				env.hs[h.List[0].Int()] = rpHandler(h.List[1].Lst())
+			}
 		}
 		regPanicked := func() (p bool) {
 			defer func() {
